@@ -29,6 +29,7 @@ type Op struct {
 	Op string    `json:"op"`           // "C" chunk, "M" mix request
 	N  int       `json:"n,omitempty"`  // C: number of bytes taken from the stream
 	T  int64     `json:"t,omitempty"`  // C: card time stamp, whole seconds since the zero time
+	Q  bool      `json:"q,omitempty"`  // C: leave the block of this read queued on buffersChan (the consumer lags behind the reader)
 	Ch []int     `json:"ch,omitempty"` // M: channel indices
 	Fr []float64 `json:"fr,omitempty"` // M: mix fractions
 }
@@ -395,32 +396,127 @@ func runCase(c Case) (lib.Result, error) {
 	}
 
 	const tickTimeout = 30 * time.Second
-	var terms []string
-	var obs []stepObs
+	terms := make([]string, len(c.Ops))
+	obs := make([]stepObs, len(c.Ops))
 	var lastStamp int64
+
+	// renders one read: its releases and the block it produced (nil: none)
+	render := func(i int, t tickLog, blk *dastard.VerifLanceroBlock, note string) error {
+		o := c.Ops[i]
+		so := stepObs{Op: "C", Rels: t.Rels, Note: note}
+		if t.Over {
+			so.Note = "release beyond the unreleased bytes"
+			tags["over-release"] = true
+		}
+		if blk != nil {
+			if blk.Closed || blk.Err != "" {
+				return fmt.Errorf("case %d: source stopped: %s", c.ID, blk.Err)
+			}
+			bo := &blockObs{Data: blk.Data, Ext: blk.ExtTrig}
+			if len(blk.FirstFrame) > 0 {
+				bo.First, bo.Dropped = blk.FirstFrame[0], blk.Dropped[0]
+			}
+			same := true
+			for k := range blk.FirstFrame {
+				if blk.FirstFrame[k] != bo.First || blk.Dropped[k] != bo.Dropped || blk.Signed[k] != (k%2 == 0) {
+					same = false
+				}
+			}
+			if len(blk.Data) > 0 && blk.NSamp != len(blk.Data[0]) {
+				same = false
+			}
+			if !same {
+				// segments of one block disagree: render an impossible value so that it cannot pass
+				bo.First = -1 << 40
+				so.Note = "segments of one block disagree on first frame / dropped / signedness / nSamp"
+			}
+			so.Block = bo
+			if len(bo.Ext) > 0 {
+				tags["ext-trigger"] = true
+			}
+			if bo.Dropped != 0 {
+				tags["drop-reported"] = true
+			}
+			terms[i] = fmt.Sprintf("(%s, TB %s %s %s %s %s)", opTerm(o, data[i]), lib.ZListInt(t.Rels),
+				lib.Z(bo.First), lib.Z(int64(bo.Dropped)), u16Lists(bo.Data), lib.ZList64(bo.Ext))
+		} else {
+			if len(t.Rels) > 0 {
+				tags["released-without-block"] = true
+			}
+			terms[i] = fmt.Sprintf("(%s, T %s)", opTerm(o, data[i]), lib.ZListInt(t.Rels))
+		}
+		obs[i] = so
+		return nil
+	}
+
+	// reads whose blocks were left on buffersChan: the consumer (getNextBlock/distributeData) lags behind the
+	// reader by that many reads; they are fetched, in order, before the next mix request / unqueued read / the end.
+	type queued struct {
+		i        int
+		t        tickLog
+		produced bool
+	}
+	var lag []queued
+	nQueued := 0 // buffers sitting on buffersChan
+	drain := func() error {
+		if nQueued >= 2 {
+			tags[fmt.Sprintf("consumer-lag-%d", nQueued)] = true
+			tags["consumer-lag"] = true
+		}
+		for _, q := range lag {
+			var blk *dastard.VerifLanceroBlock
+			if q.produced {
+				v.StartNextBlock()
+				b, ok := v.Receive(tickTimeout)
+				if !ok {
+					return fmt.Errorf("case %d: queued block not delivered", c.ID)
+				}
+				blk = &b
+			}
+			if err := render(q.i, q.t, blk, ""); err != nil {
+				return err
+			}
+		}
+		lag, nQueued = nil, 0
+		return nil
+	}
+
 	for i, o := range c.Ops {
 		switch o.Op {
 		case "M":
+			if err := drain(); err != nil {
+				return res, err
+			}
 			v.StartNextBlock() // the mix request is answered by the getNextBlock goroutine; no buffer can arrive meanwhile
 			_, merr := v.ConfigureMix(o.Ch, o.Fr)
-			obs = append(obs, stepObs{Op: "M", MixOK: merr == nil})
-			terms = append(terms, fmt.Sprintf("(%s, MR %s)", opTerm(o, nil), lib.B(merr == nil)))
+			obs[i] = stepObs{Op: "M", MixOK: merr == nil}
+			terms[i] = fmt.Sprintf("(%s, MR %s)", opTerm(o, nil), lib.B(merr == nil))
 		case "C":
 			if o.T <= lastStamp {
 				return res, fmt.Errorf("case %d: time stamps must increase", c.ID)
 			}
 			lastStamp = o.T
+			queue := o.Q && !v.Outstanding() && nQueued < 90
+			if !queue {
+				if err := drain(); err != nil {
+					return res, err
+				}
+			}
 			t, derr := card.deliver(chunk{data: data[i], stamp: o.T}, tickTimeout)
 			if derr != nil {
 				return res, fmt.Errorf("case %d: %v", c.ID, derr)
 			}
-			so := stepObs{Op: "C", Rels: t.Rels}
-			if t.Over {
-				so.Note = "release beyond the unreleased bytes"
-				tags["over-release"] = true
+			if queue {
+				// the tick is complete (the reader is parked in its next AvailableBuffer call) and nobody
+				// consumes: the length of buffersChan tells whether this read sent a buffer
+				n := v.BuffersLen()
+				lag = append(lag, queued{i: i, t: t, produced: n > nQueued})
+				nQueued = n
+				continue
 			}
 			// did this tick send a buffer?
 			var blk *dastard.VerifLanceroBlock
+			note := ""
 			if !v.Outstanding() {
 				if v.BuffersLen() > 0 {
 					v.StartNextBlock()
@@ -447,51 +543,19 @@ func runCase(c Case) (lib.Result, error) {
 					if ok {
 						blk = &b
 					} else {
-						so.Note = "expected a block, none arrived"
+						note = "expected a block, none arrived"
 					}
 				}
 			}
-			if blk != nil {
-				if blk.Closed || blk.Err != "" {
-					return res, fmt.Errorf("case %d: source stopped: %s", c.ID, blk.Err)
-				}
-				bo := &blockObs{Data: blk.Data, Ext: blk.ExtTrig}
-				if len(blk.FirstFrame) > 0 {
-					bo.First, bo.Dropped = blk.FirstFrame[0], blk.Dropped[0]
-				}
-				same := true
-				for k := range blk.FirstFrame {
-					if blk.FirstFrame[k] != bo.First || blk.Dropped[k] != bo.Dropped || blk.Signed[k] != (k%2 == 0) {
-						same = false
-					}
-				}
-				if len(blk.Data) > 0 && blk.NSamp != len(blk.Data[0]) {
-					same = false
-				}
-				if !same {
-					// segments of one block disagree: render an impossible value so that it cannot pass
-					bo.First = -1 << 40
-					so.Note = "segments of one block disagree on first frame / dropped / signedness / nSamp"
-				}
-				so.Block = bo
-				if len(bo.Ext) > 0 {
-					tags["ext-trigger"] = true
-				}
-				if bo.Dropped != 0 {
-					tags["drop-reported"] = true
-				}
-				terms = append(terms, fmt.Sprintf("(%s, TB %s %s %s %s %s)", opTerm(o, data[i]), lib.ZListInt(t.Rels),
-					lib.Z(bo.First), lib.Z(int64(bo.Dropped)), u16Lists(bo.Data), lib.ZList64(bo.Ext)))
-			} else {
-				if len(t.Rels) > 0 {
-					tags["released-without-block"] = true
-				}
-				terms = append(terms, fmt.Sprintf("(%s, T %s)", opTerm(o, data[i]), lib.ZListInt(t.Rels)))
+			if err := render(i, t, blk, note); err != nil {
+				return res, err
 			}
-			obs = append(obs, so)
 		default:
 			return res, fmt.Errorf("case %d: unknown op %q", c.ID, o.Op)
 		}
+	}
+	if err := drain(); err != nil {
+		return res, err
 	}
 	// stop as Stop() would: abortSelf, the reader closes buffersChan, getNextBlock closes nextBlock
 	v.Abort()
